@@ -92,6 +92,18 @@ func (c *Ctx) primitiveSweep(maxP int) {
 			lps[j] = extrude.LinePoint{Point: p, Up: vector3.Up[float64](), Width: float64(c.Rng.Intn(3)), Height: 1, Uv: vector2.New(0., float64(j)), UvWidth: 1}
 		}
 		c.gen("extrude_line", strconv.Itoa(n), func() modeling.Mesh { return extrude.Line(lps) })
+		// Width exactly 0 on every point / on alternating points (the zero-width branch keeps the Up normal for both sides)
+		for mode := 0; mode < 2; mode++ {
+			lz := append([]extrude.LinePoint{}, lps...)
+			for j := range lz {
+				if mode == 0 || j%2 == 0 {
+					lz[j].Width = 0
+				} else {
+					lz[j].Width = 2
+				}
+			}
+			c.gen("extrude_line", strconv.Itoa(n), func() modeling.Mesh { return extrude.Line(lz) })
+		}
 	}
 	// extrude.ScrewNodeData.Process: line lengths 0..5 x segments 0..5 (fewer than 2 of either: empty mesh)
 	for ll := 0; ll <= 5; ll++ {
@@ -113,6 +125,35 @@ func (c *Ctx) primitiveSweep(maxP int) {
 				}
 				return m
 			})
+		}
+	}
+	// the screw node with its own DEFAULTS (20 segments, 1 revolution, distance 0: a closed lathe) and Distance exactly 0
+	// with whole / fractional / zero revolutions
+	for ll := 2; ll <= 4; ll++ {
+		ll := ll
+		line := make([]vector3.Float64, ll)
+		for j := range line {
+			line[j] = vector3.New(1+float64(j), float64(j)*0.5, 0)
+		}
+		c.gen("screw", fmt.Sprintf("%d 20", ll), func() modeling.Mesh {
+			m, err := extrude.ScrewNodeData{Line: nodes.Value(line).Out()}.Process()
+			if err != nil {
+				panic(err)
+			}
+			return m
+		})
+		for _, rev := range []float64{1, 2, 3, 0.5, 0, -1} {
+			for _, sg := range []int{2, 3, 5} {
+				rev, sg := rev, sg
+				c.gen("screw", fmt.Sprintf("%d %d", ll, sg), func() modeling.Mesh {
+					m, err := extrude.ScrewNodeData{Line: nodes.Value(line).Out(), Segments: nodes.Value(sg).Out(),
+						Revolutions: nodes.Value(rev).Out(), Distance: nodes.Value(0.).Out()}.Process()
+					if err != nil {
+						panic(err)
+					}
+					return m
+				})
+			}
 		}
 	}
 	// extrude.polygon (Polygon / Circle.Extrude): the winding of each quad is a float decision, so the index list
@@ -510,6 +551,12 @@ func runC02(c *Ctx) {
 		c.Emit("c02.op.append", r.args, r.answer(shapeStr))
 		for _, o := range r.out {
 			c.wf("append-empty", o)
+		}
+	})
+	c.filterTopologySweep(func(r opRun, m modeling.Mesh) {
+		c.Emit("c02.op.filter", r.args, r.answer(shapeStr))
+		for _, o := range r.out {
+			c.wf("filter-sweep", o)
 		}
 	})
 	c.branchingHistories(10 + c.N/8)
